@@ -463,14 +463,23 @@ func writeOption(t string, cur func() *callbacks) resource.WriteOption {
 	case "xa":
 		return resource.WithExpectAbsent()
 	case "chk":
+		if v == "nil" {
+			return resource.WithExpectedCheck(nil)
+		}
 		return resource.WithExpectedCheck(namedCheck(v))
 	case "am":
 		return resource.WithAllowMissing(true)
 	case "am0":
 		return resource.WithAllowMissing(false)
 	case "bf":
+		if v == "nil" {
+			return resource.InterceptBefore(nil)
+		}
 		return resource.InterceptBefore(namedBefore(v))
 	case "af":
+		if v == "nil" {
+			return resource.InterceptAfter(nil)
+		}
 		return resource.InterceptAfter(namedAfter(v))
 	case "nw":
 		return resource.WithAllFieldsWritable()
@@ -480,6 +489,10 @@ func writeOption(t string, cur func() *callbacks) resource.WriteOption {
 		return resource.WithCreateIfAbsent()
 	case "ccb":
 		return resource.WithCreatedCallback(func() { cur().created++ })
+	case "ccb0":
+		return resource.WithCreatedCallback(nil)
+	case "icb0":
+		return resource.WithIDCallback(nil)
 	case "gid":
 		return resource.WithGenIDIfAbsent()
 	case "icb":
